@@ -55,4 +55,4 @@ package mqtt
 //@ ensures[C06] err == nil ==> forall(k, 0, len(c.peek), c.peek[k] == rx_stream(c.bufr)[rx_pos(c.bufr) + k])
 //@ ensures[C06] hastype(err, *BigMessage) ==> head / 16 == 3 && unbox(err, *BigMessage).Client == c && unbox(err, *BigMessage).Size > rx_size(c.bufr)
 //@ ensures[C06] hastype(err, *BigMessage) ==> unbox(err, *BigMessage).Size == vdec(rx_stream(c.bufr), old(rx_pos(c.bufr)) + 1, rx_pos(c.bufr) - old(rx_pos(c.bufr)) - 1)
-//@ ensures[C06] hastype(err, *BigMessage) ==> len(c.peek) == rx_size(c.bufr) && forall(k, 0, len(c.peek), c.peek[k] == rx_stream(c.bufr)[rx_pos(c.bufr) + k])
+//@ ensures[C06,id=big_full_buffer] hastype(err, *BigMessage) ==> len(c.peek) == rx_size(c.bufr) && forall(k, 0, len(c.peek), c.peek[k] == rx_stream(c.bufr)[rx_pos(c.bufr) + k])
